@@ -218,7 +218,7 @@ Example C03_nonvacuous_solve2_interior : solve2 1 (mkcut [1] 0) (mkcut [- (1)] 1
 Proof. vm_compute. reflexivity. Qed.
 
 Example C03_nonvacuous_status : rqb_done 2 true = Some 1%Z /\ rqb_done 3 true = None /\ rqb_done 0 true = Some 2%Z
-  /\ fpba_done 2 false = Some 1%Z.
+  /\ fpba_done 2 true = Some 1%Z.
 Proof. vm_compute. repeat split. Qed.
 
 Example C03_nonvacuous_ellipsoid_1d :
